@@ -1035,7 +1035,16 @@ static Plan gen_protocol(Rng& r, int tier, std::string const&)
         // aux[0] picks the gap, variant 3 resumes from a checkpoint that already holds results
         p.cbk = 0;
         p.mode = static_cast<int>(r.below(2)) * 1;   // silent or writing (printing is C20's)
-        if (p.fk == F_ZERO || p.fk == F_CONST) p.fk = F_PEAK;
+        if (p.fk == F_CONST) p.fk = F_PEAK;
+        // identically zero integrands and integrands whose support the first iterations miss: the
+        // relative error is 0/0 there and must not count as "target reached"
+        if (r.chance(0.15)) p.fk = F_ZERO;
+        else if (r.chance(0.2))
+        {
+            p.fk = F_SPARSE;
+            p.fq = static_cast<u64>(4294967296.0 * 0.02);
+            for (auto& c : p.calls) c = 2 + c % 30;
+        }
         p.aux.assign(1, r.below(p.calls.size() + 1));
         break;
     }
@@ -1115,21 +1124,38 @@ static void exec_protocol(Plan const& p, Report& rep)
         unc = rel_error_uncertainty(s.w->view(), p.nt);
     }
 
+    // a relative error that is not a number (nothing but zeros sampled so far) never reaches a target;
+    // zero or infinite ones are not unambiguous cases
+    std::vector<ld> sorted;
     for (ld x : rho)
     {
-        if (!(x > 0) || !std::isfinite(x)) return;   // degenerate history: not an unambiguous case
+        if (x != x) continue;
+        if (!(x > 0) || !std::isfinite(x)) return;
+        sorted.push_back(x);
+    }
+    if (sorted.size() != rho.size())
+    {
+        rep.probes["relative-error-not-a-number"]++;
+        // only histories in which the zeros are exact (no non-zero value sampled yet) are unambiguous
+        if (!(unc < 1)) return;
     }
 
     // candidate targets: geometric means of neighbouring (sorted) values, below the minimum, above the maximum
-    std::vector<ld> sorted = rho;
     std::sort(sorted.begin(), sorted.end());
     std::vector<ld> targets;
-    targets.push_back(sorted.front() / 2);
-    for (std::size_t i = 0; i + 1 < sorted.size(); ++i)
+    if (sorted.empty())
     {
-        if (sorted[i + 1] > sorted[i] * (1 + 64 * eps_of(p.nt))) targets.push_back(std::sqrt(sorted[i] * sorted[i + 1]));
+        targets = {0.5L, 0.1L, 0.001L};
     }
-    targets.push_back(std::min<ld>(sorted.back() * 2, 1e30L));
+    else
+    {
+        targets.push_back(sorted.front() / 2);
+        for (std::size_t i = 0; i + 1 < sorted.size(); ++i)
+        {
+            if (sorted[i + 1] > sorted[i] * (1 + 64 * eps_of(p.nt))) targets.push_back(std::sqrt(sorted[i] * sorted[i + 1]));
+        }
+        targets.push_back(std::min<ld>(sorted.back() * 2, 1e30L));
+    }
     ld const target = round_to(p.nt, targets[p.aux[0] % targets.size()]);
 
     // unambiguous only if no rho is within rounding of the target
